@@ -29,6 +29,9 @@
         compact aggregator restarted from an older file)
    L    `load_any_cut` (+ `load_strict_prefix_lv`, `load_err_iff_tail`): reload of a saved file cut anywhere, also exactly
         at a chunk boundary where no read error occurs: Faithful, and the header's loaderVersion is not believed
+   M    the compact form is MODELLED (SH.Model.CompactMetric = MakeCompactMetric + keepCompactMetricDescription + the event
+        head): `compactForm_idem`, `compactForm_desc`, `compactForm_desc_special`, `compactForm_ignores`,
+        `converges_modelled_compact`; the seeded "name cleared first" variant loses remote-config payloads (`decide`)
    Helper developments: SH/Lemmas/Journal.lean (E, F, G), SH/Lemmas/JournalConv.lean (J), SH/Lemmas/JournalChain.lean (K).
    Partial: a replica whose upstream itself is rolled back (agent behind a restarting aggregator) is outside
    `converges` (comment after `replicas_same_hash`); the direct oracle of cmd/verif-c20 checks it on the real code.
@@ -38,10 +41,12 @@ import SH.Model.MetaIndex
 import SH.Lemmas.Journal
 import SH.Lemmas.JournalConv
 import SH.Lemmas.JournalChain
+import SH.Model.CompactMetric
 
 namespace SH.C20
 open SH.MetaIndex
 open SH.Journal
+open SH.CompactMetric
 
 
 /-! ## A. association lists -/
@@ -1355,5 +1360,134 @@ example : ∃ R bs, load false (truncate (saveFile jBig) 600040) = some (R, bs, 
     R.entries.map (·.ver) = [1, 2] ∧ R.cur = 2 ∧ R.lv = 2 := ⟨_, _, rfl, by decide, by decide, by decide⟩
 /-- uncut, the header is believed -/
 example : ∃ R bs, load false (saveFile jBig) = some (R, bs, false) ∧ R.cur = 3 ∧ R.lv = 7 := ⟨_, _, rfl, by decide, by decide⟩
+
+/-! ## M. the compact form is modelled (SH.Model.CompactMetric), not an observed input -/
+
+theorem clearTag_idem (t : Tag) : clearTag (clearTag t) = clearTag t := rfl
+theorem tagKept_clear (t : Tag) : tagKept (clearTag t) = tagKept t := rfl
+
+theorem cutTags_map_clear : ∀ l : List Tag, cutTags (l.map clearTag) = (cutTags l).map clearTag := by
+  intro l
+  induction l with
+  | nil => rfl
+  | cons t r ih =>
+    simp only [List.map_cons, cutTags, ih]
+    cases h : cutTags r with
+    | nil => simp only [List.map_nil, tagKept_clear]; split <;> rename_i hk <;> simp [hk]
+    | cons a b => simp
+
+theorem cutTags_idem : ∀ l : List Tag, cutTags (cutTags l) = cutTags l := by
+  intro l
+  induction l with
+  | nil => rfl
+  | cons t r ih =>
+    have e : cutTags (t :: r) = (match cutTags r with
+        | [] => if tagKept t then [t] else []
+        | r' => t :: r') := rfl
+    rw [e]
+    cases h : cutTags r with
+    | nil =>
+      simp only
+      split
+      · rename_i hk; simp [cutTags, hk]
+      · rfl
+    | cons a b =>
+      simp only
+      rw [h] at ih
+      have e2 : cutTags (t :: a :: b) = (match cutTags (a :: b) with
+          | [] => if tagKept t then [t] else []
+          | r' => t :: r') := rfl
+      rw [e2, ih]
+
+/-- C20 (compact form): compacting a compact metric changes nothing — the compact journal of a compact journal, or a
+    re-compaction after a restart, stores the same event -/
+theorem compactForm_idem (name : Str) (m : MF) :
+    compactForm .orig name (compactForm .orig name m) = compactForm .orig name m := by
+  have hd : descOf .orig name (compactForm .orig name m) = descOf .orig name m := by
+    simp only [descOf, compactForm]
+    by_cases hk : keepDesc name m.desc = true
+    · simp [hk]
+    · have hk' : keepDesc name m.desc = false := by simpa using hk
+      have hr : remoteConfigMetric name = false := by
+        simp only [keepDesc, Bool.or_eq_false_iff] at hk'; exact hk'.1
+      have : keepDesc name [] = false := by
+        simp only [keepDesc, hr, Bool.false_or]; decide
+      simp [hk', this]
+  have hkind : (if hasPercentiles (if hasPercentiles m.kind then m.kind else []) then
+      (if hasPercentiles m.kind then m.kind else []) else []) = (if hasPercentiles m.kind then m.kind else []) := by
+    by_cases hp : hasPercentiles m.kind = true
+    · simp [hp]
+    · have : hasPercentiles [] = false := by decide
+      simp [hp, this]
+  have hw : (if normWeight (if normWeight m.weight = 1 then 0 else m.weight) = 1 then 0
+      else (if normWeight m.weight = 1 then 0 else m.weight)) = (if normWeight m.weight = 1 then 0 else m.weight) := by
+    by_cases h1 : normWeight m.weight = 1
+    · rw [if_pos h1]; simp [normWeight]
+    · simp [h1]
+  have hr : (if allowedRes (if allowedRes m.res = 1 then 0 else m.res) = 1 then 0
+      else (if allowedRes m.res = 1 then 0 else m.res)) = (if allowedRes m.res = 1 then 0 else m.res) := by
+    by_cases h1 : allowedRes m.res = 1
+    · rw [if_pos h1]; simp [allowedRes]
+    · simp [h1]
+  have ht : cutTags ((cutTags (m.tags.map clearTag)).map clearTag) = cutTags (m.tags.map clearTag) := by
+    rw [← cutTags_map_clear, List.map_map]
+    have : (clearTag ∘ clearTag) = clearTag := by funext t; rfl
+    rw [this, cutTags_map_clear, cutTags_map_clear, cutTags_idem]
+  have hdr : (m.drafts.map clearDraft).map clearDraft = m.drafts.map clearDraft := by
+    rw [List.map_map]; rfl
+  have e := hd
+  simp only [descOf, compactForm] at e
+  simp only [compactForm, descOf, MF.mk.injEq, and_true, true_and]
+  exact ⟨e, hkind, hw, hr, ht, hdr⟩
+
+/-- the description survives exactly for the remote-config / dump metrics and for marked descriptions -/
+theorem compactForm_desc (name : Str) (m : MF) :
+    (compactForm .orig name m).desc = if keepDesc name m.desc then m.desc else [] := rfl
+
+theorem compactForm_desc_special (name : Str) (m : MF) (h : remoteConfigMetric name = true) :
+    (compactForm .orig name m).desc = m.desc := by
+  simp [compactForm, descOf, keepDesc, h]
+
+/-- the compact form is determined by the kept fields: texts of tags, value comments, string-top description, pre-key
+    settings, skip flags, metric type and the event-restored ids never reach it -/
+theorem compactForm_ignores (v : KeepRule) (name : Str) (m : MF) (std pkt mtype vname : Str) (pkf : Nat) (a b c d : Bool) (mid ns ver : Int) :
+    compactForm v name { m with std := std, pkt := pkt, pkf := pkf, skipMax := a, skipMin := b, skipSq := c, pkOnly := d, mtype := mtype, mid := mid, ns := ns, vname := vname, ver := ver } = compactForm v name m := by
+  cases v <;> rfl
+
+/-- a remote-config metric with an unmarked description (its payload) -/
+def mfCfg : MF :=
+  { desc := str "limit=5", kind := str "counter", weight := 1, res := 1, dis := false, stn := [], std := str "t", pkt := [], pkf := 0,
+    skipMax := true, skipMin := false, skipSq := false, pkOnly := false, mtype := str "byte",
+    tags := [{ name := [], desc := str "environment", raw := [], ncomm := 0 }, { name := str "k1", desc := str "c", raw := [], ncomm := 2 },
+             { name := [], desc := [], raw := [], ncomm := 0 }],
+    drafts := [{ key := str "d1", name := str "d1", desc := str "x", raw := [] }], mid := 7, ns := 0, vname := str "statshouse_api_remote_config", ver := 3 }
+
+example : (compactForm .orig (str "statshouse_api_remote_config") mfCfg).desc = str "limit=5" ∧
+    (compactForm .orig (str "statshouse_api_remote_config") mfCfg).tags = [{ name := [], desc := [], raw := [], ncomm := 0 }, { name := str "k1", desc := [], raw := [], ncomm := 0 }] ∧
+    (compactForm .orig (str "abc") mfCfg).desc = [] ∧
+    (compactForm .orig (str "abc") { mfCfg with desc := str "x __whales_off" }).desc = str "x __whales_off" := by decide
+
+/-- SEEDED VARIANT (value.Name cleared before keepCompactMetricDescription is asked): the payload of a remote-config
+    metric is lost, and two successive config edits compact to the same form (so a compact journal also skips the update) -/
+example : (compactForm .seeded (str "statshouse_api_remote_config") mfCfg).desc = [] ∧
+    compactForm .seeded (str "statshouse_api_remote_config") mfCfg =
+      compactForm .seeded (str "statshouse_api_remote_config") { mfCfg with desc := str "limit=9" } ∧
+    compactForm .orig (str "statshouse_api_remote_config") mfCfg ≠
+      compactForm .orig (str "statshouse_api_remote_config") { mfCfg with desc := str "limit=9" } := by decide
+
+/-- C20 (convergence "in compacted form", with the MODELLED compact function). `fld k` = (event name, metric fields) of
+    content `k`. Hypothesis `hcf` — what a compact journal stores for `k` has the fields `compactForm` gives — is what the
+    `cf` correspondence of cmd/verif-c20 checks on the real `compactJournalEvent` for every generated metric content.
+    Then, for every schedule of the hop (`converges`), a caught-up compact replica holds for every entity of the upstream
+    exactly `compactForm` of the upstream's latest version. -/
+theorem converges_modelled_compact (tab : Nat → Content) (hT : TabOK tab true) (fld : Nat → Str × MF)
+    (hcf : ∀ k f, storedAs tab true k = some f → fld f = ((fld k).1, compactForm .orig (fld k).1 (fld k).2))
+    (ops : List Op) (w : W) (h : runW tab { R := { compact := true } } ops = some w) (hs : w.U.cur ≤ w.R.lv) :
+    ∀ u ∈ w.U.entries, ∀ f, storedAs tab true u.k = some f →
+      ∃ r ∈ w.R.entries, sameKey r u = true ∧ fld r.k = ((fld u.k).1, compactForm .orig (fld u.k).1 (fld u.k).2) := by
+  intro u hu f hf
+  obtain ⟨r, hr, hk, hrk, _⟩ := (converges tab true hT ops w h).2.2 hs |>.1 u hu f hf
+  exact ⟨r, hr, hk, by rw [hrk]; exact hcf u.k f hf⟩
+
 
 end SH.C20
